@@ -572,7 +572,7 @@ Section Paths.
     carries e t = true -> sem e (t, c) = Some (t', c') ->
     c' = if is_long_to_nested e then sorted_panel c else c.
   Proof.
-    destruct e as [| | | | | | |[l|]| | | |], t; cbn; try discriminate; intros _ H;
+    destruct e as [| | | | | | |[l|]| | | |], t; cbn; try discriminate; intros Hc H;
       try (inversion H; subst; reflexivity).
     - destruct to_np; [discriminate|]. cbn in H. inversion H. reflexivity.
     - destruct to_pd; [discriminate|]. rewrite andb_false_r in H. inversion H. reflexivity.
